@@ -4,7 +4,7 @@
    on rule r's condition, [o_dyn o r e] the value of the expression e inside a {e} tag.  All theorems hold for every
    oracle.  [rtags o r] = the tags rule r resolves to (c02_resolve_tag_spec says what that is). *)
 From Coq Require Import String Ascii List Bool ZArith Arith Permutation.
-From Tally Require Import Lib.Str Engine.StrLib Engine.Model Engine.Lemmas C01.Proofs C09.Proofs C02.Proofs.
+From Tally Require Import Lib.Str Engine.StrLib Engine.CaseMap Engine.Model Engine.Lemmas C01.Proofs C09.Proofs C02.Proofs.
 Import ListNotations.
 Open Scope string_scope.
 
@@ -104,8 +104,8 @@ Theorem c02_legacy_tags_union :
     let t := apply_transforms tf tfs t0 in
     let lo := lo_at (t_desc t) (t_fields t) in
     (In tg (ntags (normalize_legacy tf lo_at rules amount date tfs t0)) <->
-     exists r, In r rules /\ lmatch lo (upper (t_desc t)) amount date r = true /\
-               In tg (ltags lo (upper (t_desc t)) amount date r)).
+     exists r, In r rules /\ lmatch lo (py_upper (t_desc t)) amount date r = true /\
+               In tg (ltags lo (py_upper (t_desc t)) amount date r)).
 Proof. exact normalize_legacy_tags. Qed.
 Print Assumptions c02_legacy_tags_union.
 
